@@ -31,7 +31,7 @@ var zzPatterns = []string{"a.*", ".*b", "[ab]", "a", "b+", ".?c"}
 // or some allow pattern matches t anchored) and no deny pattern matches t
 // anchored. Tags are symbolic one- and two-letter strings.
 func ZZC18_filter() {
-	n := zzInt("n_tags", 0, 2+zzTier())
+	n := zzInt("n_tags", 0, 2) // tags are filtered independently of each other; two suffice to observe order
 	var in []string
 	for i := 0; i < n; i++ {
 		in = append(in, zzStringOf("tag", zzInt("tag_len", 1, 2), "a-c"))
